@@ -203,6 +203,8 @@ func (o *functionOperator) Next(ctx context.Context) ([]model.StepVector, error)
 			continue
 		}
 
+		// Samples for which the function has no value (e.g. clamp with max < min) are dropped.
+		kept := 0
 		for i := range vector.Samples {
 			o.pointBuf[0].V = vector.Samples[i]
 			// Call function by separately passing major input and scalars.
@@ -212,9 +214,16 @@ func (o *functionOperator) Next(ctx context.Context) ([]model.StepVector, error)
 				StepTime:     vector.T,
 				ScalarPoints: o.scalarPoints[batchIndex],
 			})
+			if result.Point == InvalidSample.Point {
+				continue
+			}
 
-			vector.Samples[i] = result.V
+			vector.Samples[kept] = result.V
+			vector.SampleIDs[kept] = vector.SampleIDs[i]
+			kept++
 		}
+		vectors[batchIndex].Samples = vector.Samples[:kept]
+		vectors[batchIndex].SampleIDs = vector.SampleIDs[:kept]
 	}
 
 	return vectors, nil
